@@ -66,7 +66,7 @@ def validate(number):
     number = compact(number)
     if len(number) != 8:
         raise InvalidLength()
-    if not number[0].isalpha() or not number[-1].isalpha():
+    if number[0] not in 'ABCDEFGHIJKLMNOPQRSTUVWXYZ' or number[-1] not in 'ABCDEFGHIJKLMNOPQRSTUVWXYZ':
         raise InvalidFormat()
     if not isdigits(number[1:-1]):
         raise InvalidFormat()
